@@ -7,8 +7,14 @@ static int vh_schnorr_nonce_fn(unsigned char *nonce32, const unsigned char *msg,
     if (s->fail) return 0;
     memcpy(nonce32, s->k, 32); return 1;
 }
-/* a caller-written nonce callback that delegates to the EXPORTED secp256k1_nonce_function_bip340 (mode 5) */
+/* a caller-written nonce callback (mode 5) that first SIGNS something else with another keypair -- a second signing call in flight
+ * inside the first one: results are a function of the arguments only -- and then delegates to the EXPORTED
+ * secp256k1_nonce_function_bip340 */
 static int vh_schnorr_delegating_fn(unsigned char *nonce32, const unsigned char *msg, size_t msglen, const unsigned char *key32, const unsigned char *xonly_pk32, const unsigned char *algo, size_t algolen, void *data) {
+    static secp256k1_keypair vh_nest_kp; static int vh_nest_ready = 0; unsigned char k[32], m[32], tmp[64];
+    if (!vh_nest_ready) { memset(k, 0x55, 32); vh_nest_ready = secp256k1_keypair_create(CTX, &vh_nest_kp, k); }
+    memset(m, 0x66, 32);
+    if (vh_nest_ready) (void)secp256k1_schnorrsig_sign32(CTX, tmp, m, &vh_nest_kp, NULL);
     return secp256k1_nonce_function_bip340(nonce32, msg, msglen, key32, xonly_pk32, algo, algolen, data);
 }
 /* the exported nonce function called directly */
